@@ -8,6 +8,6 @@ rsync -a --exclude .git /repo/ $d/
 perl -0pi -e "$expr" $d/$file
 if diff -q /repo/$file $d/$file >/dev/null; then echo "MUTATION DID NOT APPLY"; rm -rf $d; exit 2; fi
 (cd $d && GOFLAGS=-mod=mod GOPROXY=off go build ./... 2>&1 | head -5)
-/verif/bin/secscheck -property $prop -repo $d -verif $d/.verif 2>&1 | grep -A1 -E "^VIOLATION" | grep -v "^--" | cut -c1-400 | head -${4:-6}
+${SECSCHECK:-/verif/bin/secscheck} -property $prop -repo $d -verif $d/.verif 2>&1 | grep -A1 -E "^VIOLATION" | grep -v "^--" | cut -c1-400 | head -${4:-6}
 echo "exit=${PIPESTATUS[0]}"
 rm -rf $d
